@@ -398,7 +398,23 @@ def mpmc():
           'def mpmcDefaultQueues : Nat := %s\ndef mpmcDefaultInner : Nat := %s\ndef mpmcMinQueues : Nat := %s\n' % (e.group(1), e.group(2), lo.group(1)))
 
 
-ALL = dict(mpmc=mpmc, sched=sched, logger_facts=logger_facts, xml_facts=xml_facts, timer_consts=timer_consts, schema_utest=schema_utest, consts=consts, itoa_table=itoa_table, mon_days=mon_days, tables_utest=tables_utest)
+def sess_consts():
+    """constants of the heartbeat supervision: the divisor of the 20% allowance (both sites in connection.hpp must agree)
+    and the TestReqID literal of heartbeat_service"""
+    c = _src('include/fix8/connection.hpp')
+    ds = re.findall(r'_hb_interval20pc\s*[=(]\s*hb_interval\s*\+\s*hb_interval\s*/\s*(\d+)', c)
+    if len(ds) != 2 or len(set(ds)) != 1:
+        raise FactError('expected two agreeing `hb_interval + hb_interval / N` sites in include/fix8/connection.hpp, found %r' % ds)
+    s = _src('runtime/session.cpp')
+    m = re.search(r'bool Session::heartbeat_service\(\).*?const f8String testReqID\("([^"\\]*)"\);\s*send\(generate_test_request\(testReqID\)\)', s, re.S)
+    if not m:
+        raise FactError('TestReqID literal of Session::heartbeat_service not found in runtime/session.cpp')
+    _emit('SessConsts', '/-- `_hb_interval20pc = hb_interval + hb_interval / hb20Divisor` (Connection ctor and set_hb_interval) -/\n'
+          'def hb20Divisor : Nat := %s\n\n/-- the TestReqID that `heartbeat_service` puts on its TestRequest -/\ndef testReqIdLiteral : String := "%s"\n'
+          % (ds[0], m.group(1)))
+
+
+ALL = dict(sess_consts=sess_consts, mpmc=mpmc, sched=sched, logger_facts=logger_facts, xml_facts=xml_facts, timer_consts=timer_consts, schema_utest=schema_utest, consts=consts, itoa_table=itoa_table, mon_days=mon_days, tables_utest=tables_utest)
 
 
 def generate(names):
